@@ -670,10 +670,12 @@ impl Sim {
         LOG_LOCKS.with(|c| c.set(false));
         let mut states = Vec::new();
         let mut mds = Vec::new();
+        let mut roles: Vec<String> = Vec::new();
         for s in &self.ports {
             if let Slot::Running(p) = s {
                 let ds = p.port_ds();
                 states.push(ds.port_state as u8);
+                roles.push(format!("({}, {})", coq_bool(p.is_steering()), coq_bool(p.is_master())));
                 mds.push(match ds.delay_mechanism {
                     statime::observability::port::DelayMechanism::P2P { mean_link_delay, .. } => {
                         format!("(sz {})", n(mean_link_delay.0.to_bits()))
@@ -693,7 +695,7 @@ impl Sim {
         let t = self.instance.time_properties_ds();
         let pt = self.instance.path_trace_ds();
         format!(
-            "(mkSnap (zl [{}]) (mkDS (mkDD {} {} {} {} {} {} {} {}) {} (mkPD {} {} {} {} {}) {} {} {}) [{}])",
+            "(mkSnap (zl [{}]) (mkDS (mkDD {} {} {} {} {} {} {} {}) {} (mkPD {} {} {} {} {}) {} {} {}) [{}] [{}])",
             states.iter().map(|x| x.to_string()).collect::<Vec<_>>().join("; "),
             cid_z(&d.clock_identity),
             d.number_ports,
@@ -712,7 +714,8 @@ impl Sim {
             nlist(&pt.list.iter().map(|c| u64::from_be_bytes(c.0) as u128).collect::<Vec<_>>()),
             coq_bool(pt.enable),
             tp_coq(&t),
-            mds.join("; ")
+            mds.join("; "),
+            roles.join("; ")
         )
     }
 
